@@ -214,3 +214,237 @@ Proof.
   destruct Q3 as [Q3n Q3p]. eapply KD_add_node; eauto; cbn.
   split; [eauto|discriminate].
 Qed.
+
+Lemma remove_node_kd u s n : Inv u s -> KD u s (fst (remove_node s n)).
+Proof.
+  intros HI. destruct (remove_node s n) as [s' o] eqn:R. cbn [fst].
+  assert (Hs : o <> OUnit -> s' = s).
+  { revert R. unfold remove_node. destruct (remove_node_rec _ s n); intros [= <- <-]; [intros H; now contradiction H|auto]. }
+  destruct o; try (rewrite Hs by discriminate; apply KD_refl).
+  pose proof (remove_frame u s n s' HI R) as [L Nd _ _ _ _ Pk]. constructor; auto.
+  - intros m a b G1 G2. assert (Lm : live s' m = true) by (unfold live; now rewrite G2).
+    specialize (Nd m Lm). rewrite G1, G2 in Nd. now apply nrel5_nrel4.
+  - intros m b G1 G2. assert (Lm : live s' m = true) by (unfold live; now rewrite G2).
+    apply L in Lm. unfold live in Lm. rewrite G1 in Lm. discriminate.
+Qed.
+
+(** * the package table *)
+Definition PInj (pk : list pslot) : Prop :=
+  forall i j si sj p, nth_error pk i = Some si -> nth_error pk j = Some sj ->
+    ps_pkg si = Some p -> ps_pkg sj = Some p -> i = j.
+
+Lemma PInjS_iff s : PInjS s <-> PInj (pkgs s).
+Proof.
+  split.
+  - intros H i j si sj p Hi Hj Pi Pj. specialize (H (i, ps_gen si) (j, ps_gen sj) p). unfold get_pkg in H.
+    cbn [fst snd] in H. rewrite Hi, Hj, !Nat.eqb_refl in H. specialize (H Pi Pj). now injection H.
+  - intros H [i g] [j h] p. unfold get_pkg. cbn [fst snd].
+    destruct (nth_error (pkgs s) i) as [si|] eqn:Hi; [|discriminate].
+    destruct (nth_error (pkgs s) j) as [sj|] eqn:Hj; [|discriminate].
+    destruct (Nat.eqb_spec (ps_gen si) g) as [Eg|_]; [|discriminate].
+    destruct (Nat.eqb_spec (ps_gen sj) h) as [Eh|_]; [|discriminate].
+    intros Pi Pj. assert (E : i = j) by (eapply H; eauto). subst j. rewrite Hi in Hj. injection Hj as <-. congruence.
+Qed.
+
+Lemma PInj_update pk pk' i :
+  PInj pk -> (forall j, j <> i -> nth_error pk' j = nth_error pk j) ->
+  (forall x p, nth_error pk' i = Some x -> ps_pkg x = Some p ->
+     forall j sl, nth_error pk j = Some sl -> ps_pkg sl <> Some p) ->
+  PInj pk'.
+Proof.
+  intros H Ho Hi a b sa sb p Ha Hb Pa Pb.
+  destruct (Nat.eq_dec a i) as [->|Na], (Nat.eq_dec b i) as [->|Nb]; auto.
+  - exfalso. rewrite (Ho b Nb) in Hb. exact (Hi sa p Ha Pa b sb Hb Pb).
+  - exfalso. rewrite (Ho a Na) in Ha. exact (Hi sb p Hb Pb a sa Ha Pa).
+  - rewrite (Ho a Na) in Ha. rewrite (Ho b Nb) in Hb. exact (H a b sa sb p Ha Hb Pa Pb).
+Qed.
+
+Lemma find_pkg_slot_None s p :
+  find_pkg_slot s p = None -> forall i sl, nth_error (pkgs s) i = Some sl -> ps_pkg sl <> Some p.
+Proof.
+  unfold find_pkg_slot. generalize 0 as a. induction (pkgs s) as [|x l IH]; intros a H i sl Hn.
+  - destruct i; discriminate.
+  - cbn in H. destruct i; cbn in Hn.
+    + injection Hn as ->. destruct (ps_pkg sl) as [q|]; [|discriminate].
+      destruct (Nat.eqb_spec q p); [discriminate|congruence].
+    + refine (IH (S a) _ i sl Hn). destruct (ps_pkg x) as [q|]; auto. destruct (q =? p); [discriminate|auto].
+Qed.
+
+Lemma nth_error_snoc_other {A} (l : list A) x j : j <> length l -> nth_error (l ++ [x]) j = nth_error l j.
+Proof.
+  intros H. destruct (Nat.lt_ge_cases j (length l)) as [L|L]; [now apply nth_error_app1|].
+  rewrite nth_error_app2 by lia. destruct (j - length l) as [|k] eqn:E; [lia|]. cbn.
+  assert (nth_error l j = None) as -> by (apply nth_error_None; lia). now destruct k.
+Qed.
+
+Lemma register_kind u s p : Inv u s -> KindInv u s -> KindInv u (fst (register u s p)).
+Proof.
+  intros HI HK. unfold register. destruct (find_pkg_slot s p) eqn:F; [exact HK|].
+  pose proof (find_pkg_slot_None s p F) as Fn.
+  assert (Gen : forall s', nodes s' = nodes s -> (forall id q, get_pkg s id = Some q -> get_pkg s' id = Some q) ->
+                PInj (pkgs s') -> KindInv u s').
+  { intros s' Hn Hg Hj. eapply kind_step; eauto.
+    - intros m a b G1 G2. unfold get_node in *. rewrite Hn in G2. rewrite G1 in G2. injection G2 as <-. apply nrel4_refl.
+    - intros m b G1 G2. unfold get_node in *. rewrite Hn in G2. congruence.
+    - intros m b id G Np. unfold get_node in G. rewrite Hn in G.
+      destruct (inv_pkg_live _ _ HI m b id G Np) as [q Q]. rewrite Q. now apply Hg.
+    - now apply PInjS_iff. }
+  destruct (free_pkgs s) as [|i fp] eqn:Fp.
+  - cbn [fst]. apply Gen; [reflexivity| |].
+    + intros id q. rewrite !get_pkg_l_eq. cbn [with_pkgs pkgs]. apply get_pkg_l_app.
+    + cbn [with_pkgs pkgs]. apply PInj_update with (pk := pkgs s) (i := length (pkgs s)).
+      * apply PInjS_iff. exact (ki_pkg_inj _ _ HK).
+      * intros j Hj. now apply nth_error_snoc_other.
+      * intros x q Hx Px j sl Hsl. rewrite nth_error_app2, Nat.sub_diag in Hx by lia. cbn in Hx.
+        injection Hx as <-. cbn in Px. injection Px as <-. now apply (Fn j sl).
+  - destruct (nth_error (pkgs s) i) as [sl|] eqn:Sl; [|exact HK]. cbn [fst]. apply Gen; [reflexivity| |].
+    + intros id q Q. rewrite get_pkg_l_eq in *. cbn [with_pkgs pkgs]. rewrite get_pkg_l_set_other; auto. intros E.
+      destruct (inv_free_pkgs _ _ HI i) as [sl' [Sl' N]]; [rewrite Fp; now left|].
+      unfold get_pkg_l in Q. rewrite E, Sl' in Q. destruct (ps_gen sl' =? snd id); congruence.
+    + cbn [with_pkgs pkgs]. apply PInj_update with (pk := pkgs s) (i := i).
+      * apply PInjS_iff. exact (ki_pkg_inj _ _ HK).
+      * intros j Hj. rewrite nth_error_set_nth. apply Nat.eqb_neq in Hj. now rewrite Hj.
+      * intros x q Hx Px j sl0 Hsl. rewrite nth_error_set_nth, Nat.eqb_refl in Hx.
+        destruct (i <? length (pkgs s)); [|discriminate]. injection Hx as <-. cbn in Px. injection Px as <-.
+        now apply (Fn j sl0).
+Qed.
+
+Lemma unregister_pkgs s id s' :
+  unregister s id = (s', OUnit) ->
+  exists sl, nth_error (pkgs s) (fst id) = Some sl /\ ps_gen sl = snd id /\
+    pkgs s' = set_nth (pkgs s) (fst id) {| ps_pkg := None; ps_gen := S (ps_gen sl) |}.
+Proof.
+  unfold unregister. destruct (nth_error (pkgs s) (fst id)) as [sl|] eqn:Sl; [|discriminate].
+  destruct (Nat.eqb_spec (ps_gen sl) (snd id)) as [Gen|Gen]; cbn [negb]; [|discriminate].
+  destruct (negb _); [discriminate|].
+  destruct (remove_satisfied_all _ _) as [s2|] eqn:R; [|discriminate].
+  destruct (ps_pkg sl); [|discriminate]. intros [= <-].
+  apply remove_satisfied_all_spec in R as (_ & _ & _ & _ & _ & _ & _ & R6 & _).
+  cbn [with_maps pkgs] in R6.
+  set (victims := nodes_where s2 (fun nd => pkg_eqb (npkg nd) (Some id))).
+  destruct (drop_all_rest victims s2) as (_ & _ & _ & S4 & _).
+  exists sl. split; [reflexivity|split; [exact Gen|]]. cbn [with_pkgs pkgs]. now rewrite S4, R6.
+Qed.
+
+Lemma unregister_kind u s id : Inv u s -> KindInv u s -> KindInv u (fst (unregister s id)).
+Proof.
+  intros HI HK. destruct (unregister s id) as [s' o] eqn:R. cbn [fst].
+  assert (Hs : o <> OUnit -> s' = s).
+  { revert R. unfold unregister. destruct (nth_error (pkgs s) (fst id)) as [sl|]; [|now intros [= <- <-]].
+    destruct (negb (ps_gen sl =? snd id)); [now intros [= <- <-]|]. destruct (negb _); [now intros [= <- <-]|].
+    destruct (remove_satisfied_all _ _); [|now intros [= <- <-]]. destruct (ps_pkg sl); [|now intros [= <- <-]].
+    intros [= <- <-] H. now contradiction H. }
+  destruct o; try (rewrite Hs by discriminate; exact HK).
+  destruct (unregister_frame s id s' R) as (Lv & Nd & _ & _ & _ & _ & Pk).
+  destruct (unregister_pkgs s id s' R) as (sl & Sl & Gen & Ps).
+  eapply kind_step; eauto.
+  - intros m a b G1 G2. assert (Lm : live s' m = true) by (unfold live; now rewrite G2).
+    specialize (Nd m Lm). rewrite G1, G2 in Nd. now apply nrel5_nrel4.
+  - intros m b G1 G2. assert (Lm : live s' m = true) by (unfold live; now rewrite G2).
+    apply Lv in Lm as [Lm _]. unfold live in Lm. rewrite G1 in Lm. discriminate.
+  - intros m b id' G2 Np. apply Pk. intros E.
+    assert (Lm : live s' m = true) by (unfold live; now rewrite G2).
+    pose proof (Nd m Lm) as Nm. apply Lv in Lm as [Lm Npi]. apply live_get in Lm as [a Ga].
+    rewrite Ga, G2 in Nm. destruct Nm as (_ & P1 & _).
+    assert (Na : npkg a = Some id') by congruence.
+    destruct (inv_pkg_live _ _ HI m a id' Ga Na) as [q Q]. unfold get_pkg in Q. rewrite E, Sl in Q.
+    destruct (Nat.eqb_spec (ps_gen sl) (snd id')) as [Eg|_]; [|discriminate].
+    assert (id' = id) by (destruct id, id'; cbn in *; congruence). subst id'.
+    unfold node_pkg_is in Npi. rewrite Ga in Npi.
+    assert (pkg_eqb (npkg a) (Some id) = true) by (now apply pkg_eqb_true). congruence.
+  - apply PInjS_iff. rewrite Ps. apply PInj_update with (pk := pkgs s) (i := fst id).
+    + apply PInjS_iff. exact (ki_pkg_inj _ _ HK).
+    + intros j Hj. rewrite nth_error_set_nth. apply Nat.eqb_neq in Hj. now rewrite Hj.
+    + intros x q Hx Px. rewrite nth_error_set_nth, Nat.eqb_refl in Hx.
+      destruct (fst id <? length (pkgs s)); [|discriminate]. injection Hx as <-. discriminate Px.
+Qed.
+
+(** * all operations, all histories *)
+Lemma step_kind_inv : forall u s o, Inv u s -> KindInv u s -> KindInv u (fst (step u s o)).
+Proof.
+  intros u s o HI HK. pose proof (proj1 (Inv_iff u s) HI) as HC. destruct o; cbn [step].
+  - now apply register_kind.
+  - now apply unregister_kind.
+  - eapply kind_step_kd; eauto using define_type_kd.
+  - eapply kind_step_kd; eauto using import_kd.
+  - eapply kind_step_kd; eauto using instantiate_kd.
+  - eapply kind_step_kd; eauto using alias_kd.
+  - eapply kind_step_kd; eauto using set_arg_kd.
+  - eapply kind_step_kd; eauto using unset_arg_kd.
+  - eapply kind_step_kd; eauto using export_kd.
+  - eapply kind_step_kd; eauto using unexport_kd.
+  - eapply kind_step_kd; eauto using set_name_kd.
+  - eapply kind_step_kd; eauto using remove_node_kd.
+Qed.
+
+Lemma reach_kind_inv : forall u ops, KindInv u (run u ops).
+Proof.
+  intros u ops. induction ops as [|o ops IH] using rev_ind.
+  - exact (kind_inv_empty u).
+  - rewrite run_app. apply step_kind_inv; auto. apply reach_inv.
+Qed.
+
+(** * from the invariants to [EncInv] *)
+(** the hypothesis that cannot be derived: a definition is exported under one name only *)
+Definition DefsSingle (g : gstate) : Prop :=
+  forall nm nm' n, In (nm, n) (exports g) -> In (nm', n) (exports g) -> is_def g n = true -> nm' = nm.
+
+Lemma def_name_listed e g nm n :
+  In (nm, n) (exports g) -> exists nm', In (nm', n) (exports g) /\ def_name e g n = nstr e nm'.
+Proof.
+  intros Hin. unfold def_name. destruct (find _ (exports g)) as [[nm' n']|] eqn:Fd.
+  - apply find_some in Fd as [Hin' E]. cbn in E. apply Nat.eqb_eq in E. subst n'. eauto.
+  - exfalso. pose proof (find_none _ _ Fd (nm, n) Hin) as X. cbn in X. rewrite Nat.eqb_refl in X. discriminate.
+Qed.
+
+Lemma def_name_single e g nm n :
+  DefsSingle g -> In (nm, n) (exports g) -> is_def g n = true -> nstr e nm = def_name e g n.
+Proof.
+  intros DS Hin Hd. destruct (def_name_listed e g nm n Hin) as (nm' & Hin' & ->).
+  now rewrite (DS nm nm' n Hin Hin' Hd).
+Qed.
+
+Theorem enc_inv_of_invariants : forall e u g,
+  UnivOK e u -> Inv u g -> AliasInv u g -> KindInv u g -> DefsSingle g -> EncInv e u g.
+Proof.
+  intros e u g UO HI HA HK DS. constructor.
+  - exact (uo_inst_sort _ _ UO).
+  - intros n nd sat G K. destruct (ki_inst _ _ HK n nd sat G K) as (id & pd & Np & Pd & It).
+    unfold pkg_desc in Pd. destruct (get_pkg g id) as [p|]; [|discriminate].
+    destruct (uo_pkg_inst _ _ UO p pd Pd) as [ex Ex]. rewrite It. eapply uo_inst_sort; eauto.
+  - intros n nd G K. destruct (ki_def _ _ HK n nd G K) as [(t & td & T & It) _]. rewrite It.
+    eapply uo_ty_sort; eauto.
+  - intros n nd src en sn ex k G K GA Gs U AG. unfold get_alias_source in GA.
+    destruct (find _ (incoming g n)) as [ed|] eqn:Fd; [|discriminate].
+    apply find_some in Fd as [He Ke]. unfold incoming in He. apply filter_In in He as [He T]. apply Nat.eqb_eq in T.
+    destruct (ek ed) as [i|i|] eqn:Ki; try discriminate. destruct HA as [A _].
+    destruct (A ed i He Ki) as (sn' & ex' & nd' & nm & G1 & U' & G2 & K2 & P & N).
+    rewrite G1, U', N in GA. injection GA as <- <-. rewrite T in G2. rewrite G in G2. injection G2 as <-.
+    rewrite G1 in Gs. injection Gs as <-. rewrite U' in U. injection U as <-.
+    apply nth_error_In in N.
+    rewrite (In_alist_get ex' nm (nitem nd) (uo_exports_nodup _ _ UO _ _ U') N) in AG. injection AG as <-. reflexivity.
+  - intros n nd nm G K Ex. apply def_name_single; auto.
+    + eapply inv_node_export; eauto.
+    + unfold is_def. now rewrite G, K.
+  - intros nm n Hin Hd. now apply def_name_single.
+  - intros nm n Hin Hd. unfold str_mem. destruct (existsb _ (def_names e g)) eqn:Ex; auto. exfalso.
+    apply existsb_exists in Ex as [x [Hx Ex]]. apply str_eqb_eq in Ex. unfold def_names in Hx.
+    apply in_map_iff in Hx as [m [Em Hm]]. apply filter_In in Hm as [_ Dm].
+    pose proof Dm as Dm'. unfold is_def in Dm'. destruct (get_node g m) as [md|] eqn:Gm; [|discriminate].
+    destruct (nk md) eqn:Km; try discriminate. destruct (ki_def _ _ HK m md Gm Km) as [_ Ne].
+    destruct (nexport md) as [nm'|] eqn:Ex'; [|congruence].
+    pose proof (inv_node_export _ _ HI m md nm' Gm Ex') as Hin'.
+    destruct (def_name_listed e g nm' m Hin') as (nm'' & Hin'' & Dn).
+    assert (E : nm = nm'') by (apply (uo_names_inj _ _ UO); unfold nstr in *; congruence). subst nm''.
+    assert (n = m) by (eapply NoDup_keys_inj; eauto; apply (inv_exports_keys _ _ HI)). subst m. congruence.
+  - exact (ki_pkg_inj _ _ HK).
+Qed.
+
+Theorem enc_inv_reachable : forall e u ops,
+  UnivOK e u -> DefsSingle (run u ops) -> EncInv e u (run u ops).
+Proof.
+  intros e u ops UO DS. apply enc_inv_of_invariants; auto.
+  - apply reach_inv.
+  - apply reach_alias_inv.
+  - apply reach_kind_inv.
+Qed.
